@@ -6,6 +6,8 @@ which integrates multi-channel coil sensitivity maps and
 discrete Fourier transform.
 
 """
+import numpy as np
+
 import sigpy as sp
 
 
@@ -58,11 +60,12 @@ def Sense(
         if coord is None:
             ksp_ndim = img_ndim + 1
         else:
-            ksp_ndim = coord.ndim
+            # coils + image axes not transformed + point axes
+            ksp_ndim = 1 + (img_ndim - coord.shape[-1]) + (coord.ndim - 1)
         coil_weights = (
             weights is not None
-            and weights.ndim == ksp_ndim
-            and weights.shape[0] == num_coils
+            and np.ndim(weights) == ksp_ndim
+            and np.shape(weights)[0] == num_coils
         )
 
         A = sp.linop.Vstack(
